@@ -11,7 +11,7 @@ macro "gp_simp" : tactic => `(tactic|
   simp [pairGeneral, iterCheck, iterMatch, categoryOK, cmpCategory, kindName, pairSpec, castThen, castUntyped, valueOp, isBoolA, isStrLike3, isStr, isQN, isUri, isInteger,
      Atom.isDur, numRank, castNum, pyOp, pyBinop, subclassFirst, dunder, Atom.pyNum, numCmp, liftPy, dCmp_eq_six, isEqNe, isUA,
      sCmp, iCmp, bCmp, cmpBy_eq_six, Atom.isDT, Atom.isBin, Atom.dt, Atom.binVal, Atom.durVal, durInstanceOf,
-     binOrdered, strLtS, strEqS, octLt, D.isNaN])
+     binOrdered, strLtS, strEqS, octLt, D.isNaN, Op.isOrd])
 
 theorem six_swap_str (op : Op) (s t : Str) :
     six strLt (fun x y => decide (x = y)) op.swap t s = six strLt (fun x y => decide (x = y)) op s t := by
@@ -21,10 +21,10 @@ theorem strLt_eq : strLt = strLtS := rfl
 
 /-- untypedAtomic (left) against integer / double -/
 theorem pg_ua_num (m : Mode) (op : Op) (s : Str) (b : Atom) (y : D)
-    (hb : (∃ v : Int, b = .int v ∧ y = .fin v ∧ toD64 v = .fin v) ∨ b = .dbl y ∨ (∃ q : Rat, b = .dec q))
+    (hb : (∃ v : Int, b = .int v ∧ y = .fin v ∧ toD64 v = .fin v) ∨ b = .dbl y ∨ (∃ q : Rat, b = .dec q) ∨ b = .flt y)
     (h5 : pairSpec m op (.ua s) b ≠ .error .unsupported) :
     pairGeneral m op (.ua s) b = pairSpec m op (.ua s) b := by
-  rcases hb with ⟨v, rfl, rfl, hv⟩ | rfl | ⟨q, rfl⟩
+  rcases hb with ⟨v, rfl, rfl, hv⟩ | rfl | ⟨q, rfl⟩ | rfl
   · revert h5
     gp_simp
     simp only [strToDouble, castDouble]
@@ -37,17 +37,25 @@ theorem pg_ua_num (m : Mode) (op : Op) (s : Str) (b : Atom) (y : D)
     gp_simp
     simp only [strToDouble, castDouble]
     cases lexNum s <;> simp [Except.map, valueOp, numRank, castNum]
+  · revert h5
+    gp_simp
+    simp only [strToDouble, castDouble]
+    cases lexNum s <;> simp [Except.map, valueOp, numRank, castNum]
 
 /-- integer / double (left) against untypedAtomic: the reflected method of UntypedAtomic answers -/
 theorem pg_num_ua (m : Mode) (op : Op) (s : Str) (a : Atom) (x : D)
-    (ha : (∃ v : Int, a = .int v ∧ x = .fin v ∧ toD64 v = .fin v) ∨ a = .dbl x ∨ (∃ q : Rat, a = .dec q))
+    (ha : (∃ v : Int, a = .int v ∧ x = .fin v ∧ toD64 v = .fin v) ∨ a = .dbl x ∨ (∃ q : Rat, a = .dec q) ∨ a = .flt x)
     (h5 : pairSpec m op a (.ua s) ≠ .error .unsupported) :
     pairGeneral m op a (.ua s) = pairSpec m op a (.ua s) := by
-  rcases ha with ⟨v, rfl, rfl, hv⟩ | rfl | ⟨q, rfl⟩
+  rcases ha with ⟨v, rfl, rfl, hv⟩ | rfl | ⟨q, rfl⟩ | rfl
   · revert h5
     gp_simp
     simp only [strToDouble, castDouble]
     cases lexNum s <;> simp [Except.map, valueOp, numRank, castNum, hv, six_swap]
+  · revert h5
+    gp_simp
+    simp only [strToDouble, castDouble]
+    cases lexNum s <;> simp [Except.map, valueOp, numRank, castNum, six_swap]
   · revert h5
     gp_simp
     simp only [strToDouble, castDouble]
@@ -340,7 +348,7 @@ theorem pg_hex_ua (m : Mode) (op : Op) (s : Str) (x : List Nat)
     (h5 : pairSpec m op (.hex x) (.ua s) ≠ .error .unsupported) :
     pairGeneral m op (.hex x) (.ua s) = pairSpec m op (.hex x) (.ua s) := by
   have : pairGeneral m op (.hex x) (.ua s) = liftPy (pyOp m op (.hex x) (.ua s)) := by
-    simp [pairGeneral, iterCheck, iterMatch, categoryOK]
+    simp [pairGeneral, iterCheck, iterMatch, categoryOK, Atom.isDur]
   rw [this, pyOp_hex_ua]
   by_cases hw : hasInnerWs s = true
   · exact absurd (by simp [pairSpec, castUntyped, hw]) h5
@@ -371,7 +379,7 @@ theorem pg_b64_ua (m : Mode) (op : Op) (s : Str) (x : List Nat)
     (h5 : pairSpec m op (.b64 x) (.ua s) ≠ .error .unsupported) :
     pairGeneral m op (.b64 x) (.ua s) = pairSpec m op (.b64 x) (.ua s) := by
   have : pairGeneral m op (.b64 x) (.ua s) = liftPy (pyOp m op (.b64 x) (.ua s)) := by
-    simp [pairGeneral, iterCheck, iterMatch, categoryOK]
+    simp [pairGeneral, iterCheck, iterMatch, categoryOK, Atom.isDur]
   rw [this, pyOp_b64_ua]
   rcases b64_cases s with ⟨y, h1, h2⟩ | ⟨h1, h2⟩
   · simp [h1, pairSpec, castUntyped_b64 s x, h2, (bin_protocol m op.swap y x 4).2, (valueOp_bin_swap _ op x y).2]
@@ -384,7 +392,7 @@ theorem pg_numeric (m : Mode) (op : Op) (a b : Atom) (i j : Nat)
     (h1 : trigTol false op a b = false) (h2 : trigPromotion false a b = false) :
     pairGeneral m op a b = pairSpec m op a b := by
   cases a <;> simp [numRank] at hi <;> cases b <;> simp [numRank] at hj <;>
-    simp [trigPromotion, promRank, numRank, exactVal, castNum] at h2 <;>
+    simp [trigPromotion, numRank, exactVal, castNum] at h2 <;>
     simp [trigTol] at h1 <;> gp_simp
   all_goals first
     | (simp [h2.1, h2.2, six_swap]; done)
@@ -409,21 +417,20 @@ theorem pairGeneral_conforms (m : Mode) (op : Op) (a b : Atom)
     | none =>
       cases a <;> simp [numRank] at hi <;> cases b <;> simp [numRank] at hj <;>
         first
-        | lenient_contra h3
-        | (simp [trigUntyped] at h4; done)
         | (gp_simp; done)
+        | (simp [trigUntyped] at h4; done)
         | skip
       case int.ua v s =>
-        simp [trigPromotion, promRank, numRank, exactVal, castNum] at h2
+        simp [trigPromotion, numRank, exactVal, castNum] at h2
         exact pg_num_ua m op s _ (.fin v) (Or.inl ⟨v, rfl, rfl, h2⟩) h5
       case dbl.ua d s => exact pg_num_ua m op s _ d (Or.inr (Or.inl rfl)) h5
-      case dec.ua q s => exact pg_num_ua m op s _ .nan (Or.inr (Or.inr ⟨q, rfl⟩)) h5
+      case flt.ua d s => exact pg_num_ua m op s _ d (Or.inr (Or.inr (Or.inr rfl))) h5
+      case dec.ua q s => exact pg_num_ua m op s _ .nan (Or.inr (Or.inr (Or.inl ⟨q, rfl⟩))) h5
   | none =>
     cases a <;> simp [numRank] at hi <;> cases b <;>
       first
-      | lenient_contra h3
-      | (simp [trigUntyped, isTemporal, Atom.isDT, Atom.isDur] at h4; done)
       | (gp_simp; done)
+      | (simp [trigUntyped, isTemporal, Atom.isDT, Atom.isDur] at h4; done)
       | (simp [dtConsistent, Atom.isDT, Atom.dt] at h8; gp_simp; simp [dtCompare_eq_six _ _ _ h8]; done)
       | skip
     case str.str s t => exact (pg_str_str m op s t).1
@@ -434,10 +441,11 @@ theorem pairGeneral_conforms (m : Mode) (op : Op) (a b : Atom)
     case ua.str s t => exact (pg_str_str m op s t).2.2.2.2.2
     case ua.ua s t => exact pg_ua_ua m op s t
     case ua.int s v =>
-      simp [trigPromotion, promRank, numRank, exactVal, castNum] at h2
+      simp [trigPromotion, numRank, exactVal, castNum] at h2
       exact pg_ua_num m op s _ (.fin v) (Or.inl ⟨v, rfl, rfl, h2⟩) h5
     case ua.dbl s d => exact pg_ua_num m op s _ d (Or.inr (Or.inl rfl)) h5
-    case ua.dec s q => exact pg_ua_num m op s _ .nan (Or.inr (Or.inr ⟨q, rfl⟩)) h5
+    case ua.flt s d => exact pg_ua_num m op s _ d (Or.inr (Or.inr (Or.inr rfl))) h5
+    case ua.dec s q => exact pg_ua_num m op s _ .nan (Or.inr (Or.inr (Or.inl ⟨q, rfl⟩))) h5
     case ua.bool s y => exact (pg_ua_bool m op s y).1
     case bool.ua y s => exact (pg_ua_bool m op s y).2
     case ua.uri s t => exact pg_ua_uri m op s t h6
@@ -465,134 +473,20 @@ theorem pairGeneral_conforms (m : Mode) (op : Op) (a b : Atom)
     case b64.ua x s => exact pg_b64_ua m op s x h5
     case hex.hex x y =>
       have : pairGeneral m op (.hex x) (.hex y) = liftPy (pyBinop m op (.hex x) (.hex y) (6 + 2)) := by
-        simp [pairGeneral, iterCheck, iterMatch, categoryOK, cmpCategory, kindName, pyOp]
+        simp [pairGeneral, iterCheck, iterMatch, categoryOK, cmpCategory, kindName, Atom.isDur, pyOp]
       rw [this, (bin_protocol m op x y 6).1]; rfl
     case b64.b64 x y =>
       have : pairGeneral m op (.b64 x) (.b64 y) = liftPy (pyBinop m op (.b64 x) (.b64 y) (6 + 2)) := by
-        simp [pairGeneral, iterCheck, iterMatch, categoryOK, cmpCategory, kindName, pyOp]
+        simp [pairGeneral, iterCheck, iterMatch, categoryOK, cmpCategory, kindName, Atom.isDur, pyOp]
       rw [this, (bin_protocol m op x y 6).2]; rfl
+    case bool.bool x y => cases op <;> gp_simp <;> (cases x <;> cases y <;> decide +kernel)
     all_goals
-      cases op <;> first
-        | lenient_contra h3
-        | (gp_simp; done)
-        | (gp_simp; simp [six, durCmp4_dtd, durCmp4_ymd, iCmp, cmpBy, PyR.map, Op.swap]; done)
-        | (gp_simp; simp [six, durCmp4_dtd, durCmp4_ymd, iCmp, cmpBy, PyR.map, Op.swap]; grind)
-        | (gp_simp; rename_i x y; cases x <;> cases y <;> decide +kernel)
-        | (gp_simp; simp [six, durCmp4_dtd, durCmp4_ymd, iCmp, cmpBy, PyR.map, Op.swap]; rename_i s t; by_cases h : s = t <;> simp [h] <;> grind)
-        | skip
+      cases op <;> gp_simp <;>
+        (try simp [six, durCmp4_dtd, durCmp4_ymd, iCmp, cmpBy, PyR.map, Op.swap]) <;>
+        first
+        | done
+        | grind
+        | (rename_i s t; by_cases h : s = t <;> simp [h] <;> grind)
 
-/-! ### the implicit timezone -/
-
-theorem DT.fill_none (d : DT) : d.fill none = d := by
-  unfold DT.fill; cases d.tz <;> rfl
-
-theorem Atom.fillTz_none (a : Atom) : a.fillTz none = a := by
-  cases a <;> simp [Atom.fillTz, DT.fill_none]
-
-theorem fillPair_none (a b : Atom) : fillPair none a b = (a, b) := by
-  unfold fillPair; split <;> simp [Atom.fillTz_none]
-
-theorem pairGeneralCtx_none (m : Mode) (op : Op) : pairGeneralCtx none m op = pairGeneral m op := by
-  funext a b; simp [pairGeneralCtx, fillPair_none]
-
-theorem valuePairCtx_none (m : Mode) (op : Op) : valuePairCtx none m op = valuePair m op := by
-  funext a b; simp [valuePairCtx, fillPair_none]
-
-theorem generalCmpCtx_none (m : Mode) (op : Op) (L Rr : List Item) : generalCmpCtx none m op L Rr = generalCmp m op L Rr := by
-  simp [generalCmpCtx, generalCmp, pairGeneralCtx_none]
-
-theorem valueCmpCtx_none (m : Mode) (op : Op) (L Rr : List Item) : valueCmpCtx none m op L Rr = valueCmp m op L Rr := by
-  simp [valueCmpCtx, valueCmp, valuePairCtx_none]
-
-/-- the specification's per-item filling is the model's `fillTz` -/
-theorem withImplicitTz_atomize (itz : Option Int) (m : Mode) (x : Item) :
-    atomizeS m (withImplicitTz itz x) = (atomize m x).fillTz itz := by
-  cases x with
-  | node s => simp [withImplicitTz, atomizeS, atomize]; split <;> rfl
-  | atom a =>
-    cases a <;> simp [withImplicitTz, atomizeS, atomize, Atom.fillTz, DT.fill] <;>
-      (rename_i v; cases h1 : v.tz <;> cases itz <;> simp [h1] <;> (try (cases v; simp_all)))
-
-set_option maxHeartbeats 2000000 in
-/-- filling only when both operands are dates/times (as the code does) or filling every date/time
-value (as the specification says) makes no difference for one pair: a lone date/time value meets a
-type error or an untyped cast whatever its timezone -/
-theorem pairGeneral_fill_insens (itz : Option Int) (m : Mode) (op : Op) (a b : Atom) :
-    pairGeneralCtx itz m op a b = pairGeneral m op (a.fillTz itz) (b.fillTz itz) := by
-  unfold pairGeneralCtx fillPair
-  by_cases h : (a.isDT && b.isDT) = true
-  · simp [h]
-  · simp only [h, Bool.false_eq_true, if_false]
-    cases a <;> cases b <;> simp [Atom.isDT] at h <;> simp only [Atom.fillTz] <;> gp_simp
-
-set_option maxHeartbeats 2000000 in
-theorem valuePair_fill_insens (itz : Option Int) (m : Mode) (op : Op) (a b : Atom) :
-    valuePairCtx itz m op a b = valuePair m op (a.fillTz itz) (b.fillTz itz) := by
-  unfold valuePairCtx fillPair
-  by_cases h : (a.isDT && b.isDT) = true
-  · simp [h]
-  · simp only [h, Bool.false_eq_true, if_false]
-    cases a <;> cases b <;> simp [Atom.isDT] at h <;> simp only [Atom.fillTz] <;> vp_simp
-
-theorem product_map (f : Atom → Atom) (l r : List Atom) :
-    product (l.map f) (r.map f) = (product l r).map fun p => (f p.1, f p.2) := by
-  simp [product, List.flatMap_map, List.map_flatMap, List.map_map, Function.comp_def]
-
-theorem anyPairs_map (g : Atom → Atom → R) (f : Atom → Atom) (ps : List (Atom × Atom)) :
-    anyPairs g (ps.map fun p => (f p.1, f p.2)) = anyPairs (fun a b => g (f a) (f b)) ps := by
-  induction ps with
-  | nil => rfl
-  | cons p ps ih => obtain ⟨a, b⟩ := p; simp only [List.map_cons, anyPairs, ih]
-
-/-- CONTEXT REDUCTION (general comparison, no compatibility mode): evaluating under a dynamic context
-with implicit timezone `itz` — the code fills the timezone pair by pair, on copies — equals evaluating
-without implicit timezone on the operands in which every timezone-less date/time value has been given
-the implicit timezone (the specification's reading) -/
-theorem generalCmpCtx_eq_filled (itz : Option Int) (m : Mode) (op : Op) (L Rr : List Item) (hm : m.compat = false) :
-    generalCmpCtx itz m op L Rr =
-      generalCmp m op (L.map (withImplicitTz itz)) (Rr.map (withImplicitTz itz)) := by
-  have hl : ∀ X : List Item, (X.map (withImplicitTz itz)).map (atomize m) = (X.map (atomize m)).map (Atom.fillTz itz) := by
-    intro X
-    simp only [List.map_map]
-    apply List.map_congr_left
-    intro x _
-    have := withImplicitTz_atomize itz m x
-    have e : atomizeS m = atomize m := by funext y; cases y <;> rfl
-    rw [e] at this
-    simpa using this
-  simp only [generalCmpCtx, generalCmp, generalCmpWith, hm, Bool.false_eq_true, if_false, hl]
-  rw [product_map, anyPairs_map]
-  congr 1
-  funext a b
-  exact pairGeneral_fill_insens itz m op a b
-
-theorem atomize_withImplicitTz (itz : Option Int) (m : Mode) (x : Item) :
-    atomize m (withImplicitTz itz x) = (atomize m x).fillTz itz := by
-  have := withImplicitTz_atomize itz m x
-  have e : atomizeS m = atomize m := by funext y; cases y <;> rfl
-  rwa [e] at this
-
-theorem atomizedOperand_filled (itz : Option Int) (m : Mode) (L : List Item) :
-    atomizedOperand m (L.map (withImplicitTz itz)) =
-      (atomizedOperand m L).map (fun o => o.map (Atom.fillTz itz)) := by
-  match L with
-  | [] => rfl
-  | _ :: _ :: _ => rfl
-  | [x] =>
-    simp only [List.map, atomizedOperand, atomize_withImplicitTz]
-    cases atomize m x <;> simp [Atom.fillTz, Except.map]
-
-/-- CONTEXT REDUCTION (value comparison): same statement as for the general comparison -/
-theorem valueCmpCtx_eq_filled (itz : Option Int) (m : Mode) (op : Op) (L Rr : List Item) :
-    valueCmpCtx itz m op L Rr =
-      valueCmp m op (L.map (withImplicitTz itz)) (Rr.map (withImplicitTz itz)) := by
-  simp only [valueCmpCtx, valueCmp, valueCmpWith, atomizedOperand_filled]
-  cases atomizedOperand m L with
-  | error e => simp [Except.map]
-  | ok x =>
-    cases atomizedOperand m Rr with
-    | error e => simp [Except.map]
-    | ok y =>
-      cases x <;> cases y <;> simp [Except.map, valuePair_fill_insens]
 
 end EPV.Cmp
